@@ -271,8 +271,8 @@ def key_token(key):
     return f"{us(key[0])}_{us(key[1])}_{key[2]}"
 
 
-def make_sets(root, worker_type, ids, kinds):
-    """kinds: sid -> (reader kind, writer kind, info kind or None)"""
+def make_sets(root, worker_type, ids, kinds, flags=None):
+    """kinds: sid -> (reader kind, writer kind, info kind or None); flags: sid -> (compress, decompress)"""
     from typhon.files import FileSet, FileHandler
     out = {}
     for sid in ids:
@@ -289,6 +289,8 @@ def make_sets(root, worker_type, ids, kinds):
         if ik:
             hk["info"] = INFO_KINDS[ik][0]()
             kw["info_via"] = "both"
+        if flags and flags.get(sid, (True, True)) != (True, True):
+            kw["compress"], kw["decompress"] = flags[sid]
         out[sid] = FileSet(os.path.join(root, cfg["tmpl"]), handler=FileHandler(**hk),
                            name=sid, worker_type=worker_type, max_processes=2, max_threads=2, **kw)
     return out
@@ -347,7 +349,23 @@ def history_case(ck, scratch, nops, use_model=True, pool="thread"):
         ck.count("handler/writer/" + kinds[sid][1])
         if kinds[sid][2]:
             ck.count("handler/info/" + kinds[sid][2])
-    sets = make_sets(root, pool, ids, kinds)
+    # FileSet(compress=, decompress=): with compress=False a file with a compression suffix holds plain bytes, with
+    # decompress=False it is read as it is
+    flags = {sid: (True, True) for sid in ids}
+    for sid in ids:
+        if SETS[sid]["z"]:
+            flags[sid] = rng.choice([(True, True), (True, True), (False, False), (False, False), (False, True), (True, False)])
+        elif rng.random() < 0.2:
+            flags[sid] = rng.choice([(False, True), (True, False), (False, False)])      # no suffix: the options change nothing
+        ck.count(f"config/compress={flags[sid][0]},decompress={flags[sid][1]}" + ("/gz-template" if SETS[sid]["z"] else ""))
+    sets = make_sets(root, pool, ids, kinds, flags)
+
+    def zw(sid, owner=None):
+        """is a file written into template sid through FileSet object `owner` compressed?"""
+        return SETS[sid]["z"] and flags[owner or sid][0]
+
+    def zr(sid, owner=None):
+        return SETS[sid]["z"] and flags[owner or sid][1]
 
     def wtag(sid, override=None):
         """the prefix that reaches the writer of fileset sid"""
@@ -371,10 +389,10 @@ def history_case(ck, scratch, nops, use_model=True, pool="thread"):
     def decode_expect(sid, struct, tag=None, via=None):
         """reading `struct` (a file in sid's template) through fileset sid, or through a copy of fileset `via`"""
         owner = via or sid
-        return decode_core(SETS[sid]["z"], SETS[owner]["p"], rtag(owner, tag), struct)
+        return decode_core(zr(sid, owner), SETS[owner]["p"], rtag(owner, tag), struct)
 
     oracle = {sid: {} for sid in ids}           # key (as the fileset knows it) -> structure
-    lines = [f"fileset {sid} {int(SETS[sid]['z'])} {int(SETS[sid]['p'])} {wtag(sid)} {rtag(sid)}" for sid in ids]
+    lines = [f"fileset {sid} {int(zw(sid))}{int(zr(sid))} {int(SETS[sid]['p'])} {wtag(sid)} {rtag(sid)}" for sid in ids]
     checks = []                                 # (line index, expected output, description)
     named, aliased = set(), set()
     ops = []
@@ -515,7 +533,7 @@ def history_case(ck, scratch, nops, use_model=True, pool="thread"):
                 except Exception as e:      # noqa
                     ck.violation("write-raised", f"write to {sid} raised {type(e).__name__}: {e}", case)
                     return
-                oracle[sid][key] = ("z:" if SETS[sid]["z"] else "") + f"r:W{wtag(sid, override)}." + token(data)
+                oracle[sid][key] = ("z:" if zw(sid) else "") + f"r:W{wtag(sid, override)}." + token(data)
                 ops.append(["write", sid, key_token(key), token(data), override])
                 lines.append(f"write {sid} {key_token(key)} {token(data)} {wtag(sid, override) if override else '-'}")
                 checks.append((len(lines) - 1, "ok", "write"))
@@ -594,7 +612,7 @@ def history_case(ck, scratch, nops, use_model=True, pool="thread"):
                         want_tok = decode_expect(sid, oracle[sid][key], tg, via)
                         if tok != want_tok:
                             ck.violation(sig("read", sid, via), f"read({rel}, tag={tg}{', via returned fileset' if via else ''}) = {tok} expected {want_tok}", case)
-                    if via is None or SETS[via]["p"] == SETS[sid]["p"]:
+                    if via is None or (SETS[via]["p"] == SETS[sid]["p"] and zr(sid, via) == zr(sid)):
                         lines.append(f"read {sid} {hx(rel)} {rtag(via or sid, tg) if (tg or via) else '-'}")
                         checks.append((len(lines) - 1, tok if tok is not None else "raise", f"read {rel}"))
                 tag = f"find {sid}"
@@ -622,7 +640,7 @@ def history_case(ck, scratch, nops, use_model=True, pool="thread"):
                     ck.count("history/skipped-move-not-representable-or-colliding")
                     continue
                 conv = rng.choice([0, 0, 1, 2])
-                if SETS[dst]["z"] != SETS[src]["z"] and rng.random() < 0.7:
+                if zw(dst) != zw(src) and rng.random() < 0.7:
                     conv = rng.choice([1, 2])           # changing the compression suffix needs a conversion to stay readable
                 if conv and any(decode_expect(src, oracle[src][k]) is None for k in sel):
                     conv = 0
@@ -636,6 +654,8 @@ def history_case(ck, scratch, nops, use_model=True, pool="thread"):
                 if not ok:
                     return
                 string_target = rng.random() < 0.25
+                if string_target and conv and zw(dst, src) != zw(dst, dst):
+                    string_target = False          # the copy of the source would compress differently from the model's destination
                 target = os.path.join(root, SETS[dst]["tmpl"]) if string_target else sets[dst]
                 wt = wtag(src) if string_target else wtag(dst)          # a string target becomes a copy of the SOURCE fileset
                 if pool == "thread":
@@ -649,7 +669,7 @@ def history_case(ck, scratch, nops, use_model=True, pool="thread"):
                     c = oracle[src][k]
                     if conv:
                         t = decode_expect(src, c)
-                        c = ("z:" if SETS[dst]["z"] else "") + f"r:W{wt}." + (("G." + t) if conv == 2 else t)
+                        c = ("z:" if zw(dst, src if string_target else dst) else "") + f"r:W{wt}." + (("G." + t) if conv == 2 else t)
                     if not copy:
                         del oracle[src][k]
                     oracle[dst][reps[k]] = c
